@@ -8,7 +8,7 @@
    hypothesis D3 (DESIGN.md section 7): event-side handlers do not return HOLD; `fault = false`
    is discharged by C03 in the supported domain.  Proofs: Skel/SkelSim/SkelInv/Lemmas_Ctl/Lemmas_C01. *)
 From Coq Require Import List NArith ZArith Bool Arith.
-From CatV Require Import Bytes Defs Codec Fsm Skel SkelInv SkelSim EvSkel EvSkelSim Lemmas_Ctl Lemmas_C01.
+From CatV Require Import Bytes Defs Codec Fsm Skel SkelInv SkelSim EvSkel EvSkelSim Lemmas_Ctl Lemmas_C03 Lemmas_Domain Lemmas_C01.
 Import ListNotations.
 
 Section C01.
@@ -98,3 +98,35 @@ Print Assumptions C01_result_is_last.
 Print Assumptions C01_blank_line.
 Print Assumptions C01_drain.
 Print Assumptions C01_lookup_exits.
+
+(* ---------------------------------------------------------------------------------------------
+   The same, unconditionally, in the supported domain: C03 (Lemmas_C03.C03_no_fault) shows that the
+   fault flag is never raised for descriptors satisfying wf_desc, events naming pool commands
+   (valid_op / valid_icall) — so the hypothesis `fault = false` above is discharged. *)
+Section InDomain.
+Variable D : desc.
+Variables ioS muS hS : Type.
+Variable io_read : ioS -> ioS * option N.
+Variable io_write : ioS -> N -> ioS * bool.
+Variable mu_lock : muS -> muS * bool.
+Variable mu_unlock : muS -> muS * bool.
+Variable h_call : hS -> hreq -> hS * hres.
+Hypothesis no_uhold : forall hs q, unsol_req q = true -> r_code (snd (h_call hs q)) <> RC_HOLD.
+Hypothesis handlers_valid : forall hs q, Forall (valid_icall D) (r_calls (snd (h_call hs q))).
+Notation st := (Fsm.st ioS muS hS).
+Notation run := (Fsm.run D ioS muS hS io_read io_write mu_lock mu_unlock h_call).
+Notation reach m x mx h ops := (run (mkWorld ioS muS hS (init_state D m) x mx h []) ops).
+Notation JD := (J_in_domain D ioS muS hS io_read io_write mu_lock mu_unlock h_call no_uhold handlers_valid).
+
+Theorem C01_in_domain : forall m x mx h ops,
+  wf_desc D m -> Forall (valid_op D) ops ->
+  let s := st (reach m x mx h ops) in
+  (gR s <= gL s <= S (gR s) /\ gR s <= gS s <= gL s) /\
+  (reading_state (k_state (k s)) = true -> gL s = gR s /\ gS s = gR s) /\
+  (gS s = S (gR s) -> (k_state (k s) = CS_FLUSH_WAIT \/ k_state (k s) = CS_FLUSH) /\ k_wafter (k s) = CS_AFTER_RESET).
+Proof.
+  intros m x mx h ops Hwf Hops s. destruct (JD m x mx h ops Hwf Hops) as [_ HJ]. fold s in HJ.
+  split; [exact (J_counters s HJ)|]. split; [exact (J_reading_settled s HJ) | exact (J_result_in_flight s HJ)].
+Qed.
+End InDomain.
+Print Assumptions C01_in_domain.
